@@ -1,4 +1,6 @@
 import SoxrModel.Cr.Stream
+import SoxrModel.Cr.EarlyRat
+import Mathlib.Algebra.Order.Floor.Semiring
 /-!
 # C03 Output length: N frames in give exactly `owed N` out, then none
 
@@ -73,12 +75,77 @@ theorem total_exact (num : Num) (a : Api) (e' : Eng) (ops : List StreamOp) (N D 
 theorem histories_run (e : Eng) (ops : List StreamOp) (hf : Fresh e) : ∃ F D e', Streams e ops F D e' :=
   streams_total ops e hf.str
 
-/-- The remaining clause — before end-of-input never more than `⌈N·orate/irate⌉` frames for the `N` accepted so far —
-    is an invariant of the *time alignment* of every stage (output `k` of a stage needs input `⌊k·ratio⌋` plus its
-    post-context).  It is not yet proved in Lean for the whole pipeline; the check decides it on the real code for
-    every call of every generated history (exact rationals).  Stated, not claimed: -/
-def Goal_never_early : Prop :=
-  ∀ (e e' : Eng) (ops : List StreamOp) (F D : Nat) (owed : Nat → Nat), Fresh e → Streams e ops F D e' → D ≤ owed F + 1
+/-! ## never early
+
+The remaining clause — before end-of-input never more than `⌈N·orate/irate⌉` frames for the `N` accepted so far — is
+proved on the engine model with SAMPLES (`Cr/DataPipe.lean`; any sample type, so in particular the unit type: counts),
+for every run, from the time map of the plan (`Cr/Time.lean`, C04): the last sample an output reads lies at or beyond
+the instant the output represents (`EarlyOK`, decidable, evaluated by the driver on every exported plan), so
+`delivered` outputs need `rate·(delivered − 1) + offset + 1 + margin` inputs. -/
+
+theorem offset_nonneg (lp : List LStage) (hlat : PlanLatOK false lp) : 0 ≤ offsetOf (lp.map tstage) := by
+  induction lp with
+  | nil => simp [offsetOf]
+  | cons x rest ih =>
+    have i1 := ih fun y hy => hlat y (by simp [hy])
+    obtain ⟨b1, _⟩ := tstage_b_bound x (hlat x (by simp))
+    simp only [List.map_cons, offsetOf]
+    exact add_nonneg (mul_nonneg b1 (rate_nonneg_map rest)) i1
+
+theorem margOf_nonneg (lp : List LStage) (he : PlanEarlyOK lp) : 0 ≤ margOf lp := by
+  induction lp with
+  | nil => simp [margOf]
+  | cons x rest ih =>
+    simp only [margOf]
+    exact add_nonneg (mul_nonneg (margin_nonneg x (he x (by simp))) (rate_nonneg_map rest)) (ih fun y hy => he y (by simp [hy]))
+
+/-- **Never early (plan rate).**  In the state reached by ANY streaming run — any interleaving of input blocks and output
+    requests of any sizes — of a plan with compensated latency whose windows reach their kernels' centres, the `D`
+    frames delivered for the `N` accepted satisfy `(D − 1)·rate < N`, i.e. `D ≤ ⌈N/rate⌉`, `rate` being the plan's exact
+    rate product (`= irate/orate` for a rational plan; within the rounded-clock allowance otherwise, C04). -/
+theorem never_early {α : Type} (K : Kern α) (z : α) (owed : Nat → Nat) (lp : List LStage)
+    (hwf : ∀ x ∈ lp, StageWF x.cfg x.s0) (he : PlanEarlyOK lp) (hlat : PlanLatOK false lp)
+    (ops : List (DOp α)) (F D : List α) (e : DEng α)
+    (r : DRuns K z owed (DEng.fresh z (lp.map LStage.toPlan)) ops F D e) (hfl : e.fl = false) :
+    (1 ≤ D.length → ((D.length : ℚ) - 1) * rateOf (lp.map tstage) < F.length) ∧
+    (0 < rateOf (lp.map tstage) → D.length ≤ ⌈(F.length : ℚ) / rateOf (lp.map tstage)⌉₊) := by
+  have hr := rate_nonneg_map lp
+  have key : 1 ≤ D.length → ((D.length : ℚ) - 1) * rateOf (lp.map tstage) < F.length := by
+    intro h1
+    have h := never_early_run K z owed lp hwf he hlat ops F D e r hfl h1
+    have o1 := offset_nonneg lp hlat
+    have hm := margOf_nonneg lp he
+    linarith
+  refine ⟨key, ?_⟩
+  intro hpos
+  rcases Nat.eq_zero_or_pos D.length with h0 | h1
+  · rw [h0]; exact Nat.zero_le _
+  · have h2 : ((D.length - 1 : ℕ) : ℚ) < (F.length : ℚ) / rateOf (lp.map tstage) := by
+      rw [lt_div_iff₀ hpos, Nat.cast_sub h1]; simpa using key h1
+    have := Nat.lt_ceil.mpr h2
+    omega
+
+/-- **Never early, even with respect to the final total.**  When the pipeline's post-context is at least half an
+    output period (`rate/2 ≤ 1 + offset + margin`, a decidable fact about the plan, evaluated by the driver), what has
+    been delivered never exceeds `N/rate + ½`, hence never `⌊N/rate + ½⌋ = round(N/rate)` — which is the hypothesis
+    `D ≤ owed N` of `total_exact` whenever the engine's floating-point `owed` is not below that exact rounding. -/
+theorem never_early_round {α : Type} (K : Kern α) (z : α) (owed : Nat → Nat) (lp : List LStage)
+    (hwf : ∀ x ∈ lp, StageWF x.cfg x.s0) (he : PlanEarlyOK lp) (hlat : PlanLatOK false lp)
+    (hpost : rateOf (lp.map tstage) / 2 ≤ 1 + offsetOf (lp.map tstage) + margOf lp) (hpos : 0 < rateOf (lp.map tstage))
+    (ops : List (DOp α)) (F D : List α) (e : DEng α)
+    (r : DRuns K z owed (DEng.fresh z (lp.map LStage.toPlan)) ops F D e) (hfl : e.fl = false) :
+    (D.length : ℚ) ≤ (F.length : ℚ) / rateOf (lp.map tstage) + 1 / 2 ∧
+    D.length ≤ ⌊(F.length : ℚ) / rateOf (lp.map tstage) + 1 / 2⌋₊ := by
+  have hq : (D.length : ℚ) ≤ (F.length : ℚ) / rateOf (lp.map tstage) + 1 / 2 := by
+    rcases Nat.eq_zero_or_pos D.length with h0 | h1
+    · rw [h0]
+      have : (0 : ℚ) ≤ (F.length : ℚ) / rateOf (lp.map tstage) := by positivity
+      simp only [Nat.cast_zero]; linarith
+    · have h := never_early_run K z owed lp hwf he hlat ops F D e r hfl h1
+      have : (D.length : ℚ) - 1 / 2 ≤ (F.length : ℚ) / rateOf (lp.map tstage) := by
+        rw [le_div_iff₀ hpos]; nlinarith
+      linarith
+  exact ⟨hq, Nat.le_floor hq⟩
 
 /-! ## non-vacuity: a concrete plan exported by the real planner (44100 → 48000, HQ) meets the hypotheses -/
 
@@ -90,5 +157,14 @@ def exEng : Eng := { stages := exStages }
 
 example : Fresh exEng := ⟨rfl, rfl, ⟨rfl, by decide, by decide⟩⟩
 example : PipeWF exStages := by decide
+
+/-- the same plan with the integers the time map reads: all hypotheses of `never_early` and `never_early_round` hold -/
+def exL : List LStage :=
+  [ { cfg := { kind := .clocked, prePost := 15, den := 80, step := 147, poly0 := true, taps := 16 },
+      s0 := { occ := 8, clk := 40, isz := 8192 }, lat := { nc := 15 } },
+    { cfg := { kind := .dft, L := 2, dftLen := 2048, numTaps := 409, M := 1 },
+      s0 := { occ := 102, clk := 0, isz := 1024 }, lat := { postPeak := 204 } } ]
+
+example : (∀ x ∈ exL, StageWF x.cfg x.s0) ∧ PlanEarlyOK exL ∧ PlanLatOK false exL := by decide
 
 end Soxr.Properties.C03
